@@ -955,7 +955,7 @@ UNIT_META["tree_claim"] = {"functions": ["column::HashColumn::{prepare_node,prep
                                        "the loop of claim_tree_values that turns the per-tier counts into claimed slot lists (iteration over a HashMap by value, ValueTable::claim_entries) is outside the unit: that each tier gets as many slots as preparation counted is the precondition `budget`"]}
 for _p in ("C10", "C08"):
     PROPS[_p]["verus_units"] = list(PROPS[_p].get("verus_units", [])) + ["tree_claim"]
-PROPS["C10"]["claim"] = PROPS["C10"]["claim"] + " Writer side (Verus, unbounded over tree shape, fan-out and data): HashColumn::claim_node lists every new node exactly once, last among the changes of its subtree, under the address it returns -- the next unused slot claimed for the node's size tier -- and packed as data ++ 8 little-endian address bytes per child in child order ++ child count, which is the format unpack_node_* decodes; the address bytes of a new child are the address its own packed form was listed under, those of an existing child its address; every occurrence of an existing child gets a count increment of its own (a child listed twice is counted twice, matching the release walk, which lowers once per occurrence) unless the column never counts; entries already in the change list are never altered."
+PROPS["C10"]["claim"] = PROPS["C10"]["claim"] + " Writer side (Verus, unbounded over tree shape, fan-out and data): HashColumn::claim_node lists every new node exactly once, last among the changes of its subtree, under the address it returns -- a slot claimed for the node's size tier -- and packed as data ++ 8 little-endian address bytes per child in child order ++ child count, which is the format unpack_node_* decodes; the address bytes of a new child are the address its own packed form was listed under, those of an existing child its address; every occurrence of an existing child gets a count increment of its own (a child listed twice is counted twice, matching the release walk, which lowers once per occurrence) unless the column never counts; entries already in the change list are never altered."
 PROPS["C08"]["claim"] = PROPS["C08"]["claim"] + " Multitree preparation (Verus, unbounded): HashColumn::prepare_node / prepare_children accept only trees in which every new node's child count fits the count byte -- i.e. every tree packing would reject is rejected before any slot is claimed -- and count exactly one slot per new node in the size tier packing will use; claim_node / claim_children_to_data, given those counts, return no error and take exactly the counted slots, so no claimed slot is left over."
 PROPS["C10"]["does_not_cover"] = [x for x in PROPS["C10"]["does_not_cover"] if "claim_tree_values" not in x and "claim_node" not in x] + ["the loop of claim_tree_values that claims the counted slots per tier (HashMap iteration by value, ValueTable::claim_entries)", "that the size tier chosen holds the packed node (tier selection is a contract here)"]
 PROPS["C10"]["technique"] = PROPS["C10"]["technique"] + "; Verus contracts on the real node preparation / packing functions (prepare_node, claim_node and their child loops, extracted on every run)"
@@ -995,7 +995,7 @@ for (_nf, _mc) in ((2, 2), (2, 1), (3, 2), (3, 8)):
 UNIT_META["U61"] = {"functions": ["log::Log::clean_logs"], "assumes": ["File::{set_len, sync_all}, <File as Seek>::seek and close(2) replaced by recorders keyed by descriptor; the failing fsync stands for the point where the process stops", "Log::drop_log (remove_file) replaced by a recorder"]}
 for _p in ("C03", "C12"):
     PROPS[_p]["kani_units"] = list(PROPS[_p]["kani_units"]) + ["U61"]
-    PROPS[_p]["claim"] = PROPS[_p]["claim"] + " Log::clean_logs (Kani, bounded: two or three enacted files) empties enacted log files oldest first and never more than asked for, so wherever reclamation stops the files still on disk are a suffix of the log -- replay numbers records consecutively and discards everything behind a hole; files not reclaimed stay queued, none is deleted while the pool has room."
+    PROPS[_p]["claim"] = PROPS[_p]["claim"] + " Log::clean_logs (Kani, bounded: two or three enacted files) empties enacted log files oldest first and never more than asked for, so wherever reclamation stops the files still on disk are a suffix of the log -- replay numbers records consecutively and discards everything behind a hole; files not reclaimed stay queued."
 PROPS["C12"]["does_not_cover"] = [x for x in PROPS["C12"]["does_not_cover"] if "Log::clean_logs" not in x]
 
 # ---------------------------------------------------------------- U50 extension: no log file is touched before the options were checked against the metadata
@@ -1161,7 +1161,7 @@ UNIT_META["U72"] = {"functions": ["btree::node::Node::{on_existing (leaf branch)
                     "assumes": ["Column::write_existing_value_plan (releases the value entry / lowers its count: U8d) replaced by its contract with a scripted outcome (value gone / value stays)",
                                 "one-byte keys as in U71; complete over the leaf sizes 0..=ORDER and every key position"]}
 PROPS["C04"]["kani_units"] = list(PROPS["C04"]["kani_units"]) + ["U72"]
-PROPS["C04"]["claim"] = PROPS["C04"]["claim"] + " Leaf removal (Kani, complete over leaf sizes 0..=8, any key): Node::on_existing releases the value entry of exactly the key named, once; if the value goes away the key leaves the leaf and the other keys stay packed, in order, each with its own value, and a rebalance is asked for exactly when the leaf drops below half full; a key that is not in the leaf changes nothing."
+PROPS["C04"]["claim"] = PROPS["C04"]["claim"] + " Leaf removal (Kani, complete over leaf sizes 0..=8, any key): Node::on_existing releases the value entry of exactly the key named, once; if the value goes away the key leaves the leaf and the other keys stay packed, in order, each with its own value,; a key that is not in the leaf changes nothing."
 
 # ---------------------------------------------------------------- C18 (claimed during the build, level other): where the directory lock stands in the life of a handle
 UNIT_META["dir_lock"] = {"functions": ["db::DbInner::open (fragment: from the locking of the lock file to the construction of the handle)", "db::Db::drop_inner (fragment: shutdown drain and release of the lock)"],
